@@ -485,38 +485,107 @@ def _stmt(f, node):
 
 
 # ------------------------------------------------------------------------------------------------ REDUCE
+def _reduce_eval(model, f, a_shape, axis, keepdims):
+    """evaluate a reduction backward kernel on a concrete operand shape / axis / keepdims with a symbolic gradient G:
+    -> (outcomes, did the gradient pass through an axis re-insertion, with which axis)"""
+    from .peval import PE, Opaque
+    from .poly import P as Pol
+    G = Pol.atom('G')
+    rec = []
+
+    def hook(pe, name, e, args, kw, env, func, depth):
+        n = name or ''
+        if n in ('numpy.expand_dims', 'synapgrad.cpu_ops.unsqueeze_forward') and len(args) >= 2:
+            rec.append((args[0], args[1]))
+            return Pol.atom('unsq(%s)' % (args[0].canon() if isinstance(args[0], Pol) else args[0]))
+        if n == 'numpy.zeros':
+            return Pol.const(0)
+        if n == 'numpy.zeros_like':
+            return Pol.atom('mask')          # a buffer that is filled in place afterwards (arg-max mask)
+        if n in ('numpy.ones', 'numpy.ones_like'):
+            return Pol.const(1)
+        if n in ('numpy.argmax', 'numpy.argmin', 'numpy.unravel_index'):
+            return Opaque(n)
+        if n == 'numpy.put_along_axis':
+            return None
+        return NotImplemented
+    atoms = {'a.shape': tuple(a_shape), 'len(a.shape)': len(a_shape), 'a.ndim': len(a_shape)}
+    args = {}
+    for p_ in f.pos_params:
+        if p_ == 'a_shape':
+            args[p_] = tuple(a_shape)
+        elif p_ == 'axis':
+            args[p_] = axis
+        elif p_ == 'keepdims':
+            args[p_] = keepdims
+        elif p_ == f.pos_params[0]:
+            args[p_] = G
+        elif p_ == 'a':
+            args[p_] = Pol.atom('a')
+    outs = PE(model, atoms=atoms, call_hook=hook, atoms_not_none=True).paths(f, args)
+    return outs, rec
+
+
 def check_reduce(model, R, P, kernels):
-    """reduction backward kernels re-insert the reduced axes iff `not keepdims and axis is not None`"""
-    R.rule(P + '.REDUCE', 'reduction backward kernels re-insert reduced axes exactly when `not keepdims and axis is not None`', floor=len(kernels))
+    """reduction backward kernels re-insert the reduced axes iff `not keepdims and axis is not None`: evaluated on concrete (shape, axis, keepdims) cases"""
+    from .poly import P as Pol
+    R.rule(P + '.REDUCE', 'reduction backward kernels re-insert the reduced axes (unsqueeze of the upstream gradient along `axis`) exactly when `not keepdims and axis is not None`; '
+                          'mean additionally divides by the number of averaged elements  [kernels evaluated on concrete shape / axis / keepdims cases]', floor=len(kernels))
+    cases = [((2, 3, 4), ax, kd) for ax in (None, 0, -1, 1) for kd in (False, True)]
     for q in kernels:
         f = model.func(q)
-        cfg = CFG(f.node)
-        gp = f.pos_params[0]
-        hits = []
-        # names that hold the upstream gradient: the parameter and plain copies of it (a helper inlined by normalisation introduces such temporaries)
-        alias = {gp}
-        for _ in range(4):
-            for n in body_walk(f.node):
-                if isinstance(n, ast.Assign) and len(n.targets) == 1 and isinstance(n.targets[0], ast.Name) and isinstance(n.value, ast.Name) and n.value.id in alias:
-                    alias.add(n.targets[0].id)
-        for n in body_walk(f.node):
-            if isinstance(n, ast.Assign) and isinstance(n.value, ast.Call):
-                d = model.resolve(f.mod, n.value.func)
-                if d in ('synapgrad.cpu_ops.unsqueeze_forward', 'numpy.expand_dims') and n.value.args and isinstance(n.value.args[0], ast.Name) \
-                        and n.value.args[0].id in alias:
-                    hits.append(n)
-        if len(hits) != 1:
-            R.ob(P + '.REDUCE', f.qualname, 're-insertion of reduced axes', False,
-                 'expected exactly one `grad = unsqueeze(grad, axis)` statement, found %d' % len(hits), f.loc)
+        tuple_ok = 'tuple' in norm(f.node.args.args[[a_.arg for a_ in f.node.args.args].index('axis')].annotation or ast.Constant(value='')) if 'axis' in [a_.arg for a_ in f.node.args.args] else False
+        cs = list(cases) + ([((2, 3, 4), (0, 2), False), ((2, 3, 4), (-1, -2), False), ((2, 3, 4), (1,), True)] if tuple_ok else [])
+        bad = []
+        for shape, ax, kd in cs:
+            try:
+                outs, rec = _reduce_eval(model, f, shape, ax, kd)
+            except Incomplete as u:
+                R.incomplete_at(P + '.REDUCE', f.qualname, '%s: %s' % ((shape, ax, kd), u))
+                bad = None
+                break
+            want = (not kd) and ax is not None
+            rets = [o for o in outs if o.kind == 'return']
+            if len(rets) != 1 or len(outs) != 1:
+                bad.append('%s: %d paths' % ((ax, kd), len(outs)))
+                continue
+            v = rets[0].value
+            used = isinstance(v, Pol) and any(n.startswith('unsq(') for n in v.atoms())
+            plain = isinstance(v, Pol) and 'G' in v.atoms()
+            if want != used or (not want and not plain) or (want and plain):
+                bad.append('axis=%r keepdims=%r -> %s' % (ax, kd, v.canon() if isinstance(v, Pol) else repr(v)[:60]))
+            elif want and not (len(rec) == 1 and rec[0][1] == ax and isinstance(rec[0][0], Pol) and rec[0][0] == Pol.atom('G')):
+                bad.append('axis=%r keepdims=%r: re-insertion %s' % (ax, kd, [(str(r[0]), r[1]) for r in rec]))
+        if bad is None:
             continue
-        n = hits[0]
-        fs = {(t, p) for t, p, _ in facts_at(cfg, n)}
-        ax = norm(n.value.args[1]) if len(n.value.args) > 1 else 'axis'
-        want = {('keepdims', False), ('%s is not None' % ax, True)}
-        alt = {('keepdims', False), ('%s is None' % ax, False)}
-        ok = fs == want or fs == alt
-        R.ob(P + '.REDUCE', f.qualname, norm(n) + ' under ' + str(sorted(fs)), ok,
-             'the upstream gradient must be unsqueezed along the reduced axes iff `not keepdims and %s is not None`' % ax, _loc(f, n))
+        R.ob(P + '.REDUCE', f.qualname, 're-insertion of reduced axes over %d (axis, keepdims) cases' % len(cs), not bad,
+             'the upstream gradient must be unsqueezed along the reduced axes iff `not keepdims and axis is not None`: %s' % bad[:3], f.loc)
+
+
+def check_mean_divisor(model, R, P):
+    """mean_backward divides the broadcast gradient by the number of averaged elements: evaluated on concrete shapes / axes"""
+    from .poly import P as Pol
+    from fractions import Fraction
+    f = model.func('synapgrad.cpu_ops.mean_backward')
+    shape = (2, 3, 5)
+    bad = []
+    for ax in (None, 0, 1, -1, (0, 2), (-1, -3), [1], (0, 1, 2)):
+        for kd in (False, True):
+            try:
+                outs, rec = _reduce_eval(model, f, shape, ax, kd)
+            except Incomplete as u:
+                R.incomplete_at(P + '.REDUCE', f.qualname, 'divisor, axis=%r: %s' % (ax, u))
+                return
+            axes = range(len(shape)) if ax is None else ([ax] if isinstance(ax, int) else list(ax))
+            n = 1
+            for a_ in {x % len(shape) for x in axes}:
+                n *= shape[a_]
+            rets = [o for o in outs if o.kind == 'return']
+            v = rets[0].value if len(rets) == 1 else None
+            ok = isinstance(v, Pol) and len(v.t) == 1 and list(v.t.values())[0] == Fraction(1, n)
+            if not ok:
+                bad.append('axis=%r keepdims=%r -> %s (expected gradient / %d)' % (ax, kd, v.canon() if isinstance(v, Pol) else repr(v)[:50], n))
+    R.ob(P + '.REDUCE', f.qualname, 'divisor of mean_backward', not bad, 'the divisor must be the product of the operand extents over the reduced axes: %s' % bad[:3], f.loc)
 
 
 # ------------------------------------------------------------------------------------------------ DEP
@@ -641,26 +710,6 @@ def check_axisgen(model, R, P, kernel_quals):
                 R.ob(P + '.AXISGEN', q, norm(n), False, 'literal-axis extent of an array operand in an axis-generic kernel', _loc(f, n))
         if n_red == 0:
             R.ob(P + '.AXISGEN', q, 'no reduction found', False, 'an axis-taking kernel must reduce along its axis parameter', f.loc)
-
-
-def check_mean_divisor(model, R, P):
-    """mean_backward divides the broadcast gradient by the number of averaged elements"""
-    f = model.func('synapgrad.cpu_ops.mean_backward')
-    rets = [n for n in body_walk(f.node) if isinstance(n, ast.Return)]
-    ok = False
-    why = 'mean backward must return <broadcast gradient> / <number of averaged elements>'
-    if len(rets) == 1 and isinstance(rets[0].value, ast.BinOp) and isinstance(rets[0].value.op, ast.Div) and isinstance(rets[0].value.right, ast.Name):
-        d = rets[0].value.right.id
-        binds = [n for n in body_walk(f.node) if isinstance(n, ast.Assign) and norm(n.targets[0]) == d]
-        if len(binds) == 1:
-            v = binds[0].value
-            t = norm(v)
-            comp = [x for x in ast.walk(v) if isinstance(x, (ast.ListComp, ast.GeneratorExp))]
-            ok = isinstance(v, ast.Call) and norm(v.func) in ('np.prod', 'math.prod') and len(comp) == 1 and norm(comp[0].elt) == 'a_shape[i]' \
-                and len(comp[0].generators) == 1 and norm(comp[0].generators[0].iter) == 'range(len(a_shape))' \
-                and [norm(c) for c in comp[0].generators[0].ifs] == ['i in axis']
-            why = 'the divisor must be the product of the operand extents over the reduced axes (got %s)' % t[:80]
-    R.ob(P + '.REDUCE', f.qualname, 'divisor of mean_backward', ok, why, f.loc)
 
 
 def check_window_axis(model, R, P):
